@@ -125,7 +125,7 @@ package workceptor
 //@ func (*workceptorCommand).ControlFunc$1
 //@   modifies nothing
 //@ func (*workceptorCommand).ControlFunc
-//@   tags C15 C13 C04
+//@   tags C15 C13 C04 C05
 //@   requires c != nil && c.w != nil && cfo != nil && nc != nil && c.w.nc != nil
 //@   loop range c.params
 //@     invariant NOWRITE: !flag("swrote")
@@ -135,6 +135,8 @@ package workceptor
 //@   site call Cancel AUTHZCANCEL: requires authorized(c.w, status.WorkType, signature, connIsUnix, signWork)
 //@   site call Release AUTHZRELEASE: requires authorized(c.w, status.WorkType, signature, connIsUnix, signWork)
 //@   site call GetResults AUTHZRESULTS: requires authorized(c.w, status.WorkType, signature, connIsUnix, signWork)
+//@   site call GetResults OFFSET: [C05] requires arg2 == unitid && arg3 == startPos && startPos == lastcall("intFromMap", 0) && lastcall("intFromMap", 1) == nil
+//@   site call WriteToConn STREAM: [C05] requires arg1 == lastcall("GetResults", 0) && lastcall("GetResults", 1) == nil
 //@   ghostflag swrote set call:UpdateBasicStatus
 //@   site call UpdateBasicStatus OWNFORWARD: [C13] requires arg2 == 0 && (flag("swrote") ==> rank(arg0) >= rank(lastarg("UpdateBasicStatus", 0)) && rank(lastarg("UpdateBasicStatus", 0)) < 2)
 //@   site call ReadFromConn ACKAFTERSAVE: [C04] requires worker != nil && flag("swrote") && lastarg("UpdateBasicStatus", 0) == 0
@@ -421,7 +423,7 @@ package workceptor
 //@ func (*remoteUnit).SetFromParams
 //@   tags C19
 //@   requires rw != nil
-//@   site mapupdate map[string]string ASSUBMITTED: [C19] requires (key in params) && value == params[key]
+//@   site mapupdate RemoteExtraData.RemoteParams ASSUBMITTED: [C19] requires (key in params) && value == params[key]
 
 // every status / list response is built from UnitStatus (the redacted view), never from the raw record
 //@ func (*Workceptor).unitStatusForCFR
@@ -441,3 +443,24 @@ package workceptor
 //@   site call SignedString WITHKEY: [C15] requires arg1 == box(rsaPrivateKey) && lastcall("LoadPrivateKey", 1) == nil && arg0 == lastcall("NewWithClaims", 0)
 //@   ensures NOKEY: [C15] old(w.SigningKey) == "" ==> result.1 != nil
 //@   ensures SIGNED: [C15] result.1 == nil ==> result.0 == lastcall("SignedString", 0) && lastcall("SignedString", 1) == nil
+
+// ---- C13 / C14 / C05: in-process units record the size of their output through the locked update primitive, as the
+// ---- number of bytes written so far, which only grows
+//@ func saveStdoutSize
+//@   tags C14 C13
+//@   site call UpdateFullStatus VIALOCK: [C14] requires arg1 == path.Join2(unitdir, "status")
+//@ func saveStdoutSize$1
+//@   tags C13 C14
+//@   requires status != nil
+//@   modifies status.StdoutSize
+//@   ensures ONLYSIZE: [C13] status.StdoutSize == stdoutSize
+//@ iface FileWriteCloser.Write
+//@   params w, b
+//@   modifies nothing
+//@   ensures COUNT: 0 <= result.0 && result.0 <= len(b)
+//@ func (*STDoutWriter).Write
+//@   tags C13 C05
+//@   requires sw != nil && sw.writer != nil
+//@   site call Write THEDATA: [C05] requires arg0 == p
+//@   site call saveStdoutSize GROWS: [C13 C05] requires arg0 == sw.unitdir && arg1 == sw.bytesWritten && sw.bytesWritten == old(sw.bytesWritten) + lastcall("Write", 0) && lastcall("Write", 0) > 0
+//@   ensures COUNT: [C05] result.0 == lastcall("Write", 0)
